@@ -117,6 +117,10 @@ type tag struct {
 }
 
 func runCase(line string, obs *vh.LineWriter, st *vh.Stats) {
+	if f := strings.Fields(line); len(f) > 1 && strings.HasPrefix(f[1], "client=") {
+		runClientCase(line, obs, st)
+		return
+	}
 	id, cap, ops := parseCase(line)
 	if cap == 0 {
 		obs.Printf("%s BADCAP\n", id)
@@ -353,6 +357,10 @@ func main() {
 		r := vh.NewRand(a.Seed)
 		w := vh.Create(a.Cases)
 		for i := 0; i < n; i++ {
+			if i%10 == 9 {
+				w.Printf("g%d %s\n", i, genClientCase(r))
+				continue
+			}
 			w.Printf("g%d %s\n", i, genCase(r, i, a.Tier))
 		}
 		w.Close()
